@@ -8,7 +8,9 @@
 
 #include "cntgs/detail/typeTraits.hpp"
 
+#include <array>
 #include <iterator>
+#include <vector>
 #include <version>
 
 namespace cntgs::detail
@@ -27,27 +29,21 @@ struct ArrowProxy
     constexpr const T* operator->() const noexcept { return &t_; }
 };
 
+// Whether `I` is known to iterate over contiguous memory. Before C++20 this cannot be detected for class-type
+// iterators: std::deque<T>::iterator is random access, yields lvalue references and has an operator-> that
+// produces a pointer, but its elements are not contiguous.
+#ifdef __cpp_lib_ranges
 template <class I>
-constexpr auto operator_arrow_produces_pointer_to_iterator_reference_type() noexcept
-{
-    if constexpr (detail::HAS_OPERATOR_ARROW<I>)
-    {
-        return std::is_same_v<decltype(std::declval<const I&>().operator->()),
-                              std::add_pointer_t<typename std::iterator_traits<I>::reference>>;
-    }
-    else
-    {
-        return false;
-    }
-}
-
-template <class I>
+inline constexpr bool CONTIGUOUS_ITERATOR_V = std::contiguous_iterator<I>;
+#else
+template <class I, class V = typename std::iterator_traits<I>::value_type>
 inline constexpr bool CONTIGUOUS_ITERATOR_V =
-    detail::IS_DERIVED_FROM<typename std::iterator_traits<I>::iterator_category, std::random_access_iterator_tag> &&
-    std::is_lvalue_reference_v<typename std::iterator_traits<I>::reference> &&
-    std::is_same_v<typename std::iterator_traits<I>::value_type,
-                   detail::RemoveCvrefT<typename std::iterator_traits<I>::reference>> &&
-    detail::operator_arrow_produces_pointer_to_iterator_reference_type<I>();
+    std::is_pointer_v<I> ||
+    (!std::is_same_v<V, bool> &&
+     (std::is_same_v<I, typename std::vector<V>::iterator> || std::is_same_v<I, typename std::vector<V>::const_iterator> ||
+      std::is_same_v<I, typename std::array<V, 1>::iterator> ||
+      std::is_same_v<I, typename std::array<V, 1>::const_iterator>));
+#endif
 }  // namespace cntgs::detail
 
 #endif  // CNTGS_DETAIL_ITERATOR_HPP
